@@ -14,6 +14,31 @@ from .symex import Res, is_val, APP, APP_RAISES, APP_EXC, metacls, clsattr, PExc
 
 ENUM_KS = z3.Function("enum_ks", ArrVB, ArrVV, ArrIV)
 ENUM_POS = z3.Function("enum_pos", ArrVB, ArrVV, z3.ArraySort(Val, I))
+def simple_term(t):
+    """no lambda / ite / store inside (such array terms are poison as arguments of uninterpreted functions)"""
+    todo, seen = [t], set()
+    while todo:
+        x = todo.pop()
+        if x.get_id() in seen:
+            continue
+        seen.add(x.get_id())
+        if z3.is_quantifier(x):
+            return False
+        if z3.is_app(x):
+            if x.decl().kind() in (z3.Z3_OP_ITE, z3.Z3_OP_STORE, z3.Z3_OP_CONST_ARRAY):
+                return False
+            todo.extend(x.children())
+    return True
+
+
+def FA(vs, body, pats):
+    """ForAll with patterns when they are admissible (no ite / lambda inside), without otherwise"""
+    try:
+        return z3.ForAll(vs, body, patterns=pats)
+    except z3.Z3Exception:
+        return z3.ForAll(vs, body)
+
+
 IT_N = z3.Function("it_n", Val, I)
 IT_ARR = z3.Function("it_arr", Val, ArrIV)
 
@@ -131,6 +156,8 @@ class Models:
 
     # ------------------------------------------------------------------ attribute access
     def getattr_(self, eng, st, obj, name, fx):
+        if hasattr(obj, "pgetattr"):
+            return obj.pgetattr(eng, st, name, fx)
         if isinstance(obj, PModule):
             return [Res("ok", st, self.module_attr(eng, st, obj, name))]
         if isinstance(obj, PClass):
@@ -737,27 +764,31 @@ class Models:
         enumerations of an unchanged container agree; the bijection facts are added to the state."""
         has, dk = st.get("dhas", a), st.get("dkey", a)
         n = st.get("dsize", a)
-        ks = ENUM_KS(has, dk)
-        posa = ENUM_POS(has, dk)
-        pos = lambda k: z3.Select(posa, k)
         key = ("enum", has.get_id(), dk.get_id())
         hit = st.ghost.get(key)
         if hit is not None and hit[0].eq(has) and hit[1].eq(dk):
-            return n, ks, pos
+            return n, hit[2], (lambda k, posa=hit[3]: z3.Select(posa, k))
+        # named constants (usable in quantifier patterns) for the content-determined enumeration
+        ks = fresh("dks", ArrIV)
+        posa = fresh("dpos", z3.ArraySort(Val, I))
+        if simple_term(has) and simple_term(dk):
+            # content-determined order: two enumerations of an unchanged container agree
+            st.assume(ks == ENUM_KS(has, dk), posa == ENUM_POS(has, dk))
+        pos = lambda k: z3.Select(posa, k)
         i = z3.Int("i!en")
         k = z3.Const("k!en", Val)
         st.assume(n >= 0)
-        st.assume(z3.ForAll([i], z3.Implies(z3.And(i >= 0, i < n),
+        st.assume(FA([i], z3.Implies(z3.And(i >= 0, i < n),
                   z3.And(z3.Select(has, kn(z3.Select(ks, i))), pos(kn(z3.Select(ks, i))) == i,
                          z3.Not(is_absent(z3.Select(ks, i))),
                          z3.Select(dk, kn(z3.Select(ks, i))) == z3.Select(ks, i))),
-                  patterns=[z3.Select(ks, i)]))
-        st.assume(z3.ForAll([k], z3.Implies(z3.Select(has, k),
+                  [z3.Select(ks, i)]))
+        st.assume(FA([k], z3.Implies(z3.Select(has, k),
                   z3.And(pos(k) >= 0, pos(k) < n, kn(z3.Select(ks, pos(k))) == k)),
-                  patterns=[z3.Select(has, k)]))
-        st.assume(z3.ForAll([i], z3.Implies(z3.Or(i < 0, i >= n), z3.Select(ks, i) == ABSENT), patterns=[z3.Select(ks, i)]))
+                  [z3.Select(has, k)]))
+        st.assume(FA([i], z3.Implies(z3.Or(i < 0, i >= n), z3.Select(ks, i) == ABSENT), [z3.Select(ks, i)]))
         st.ghost = dict(st.ghost)
-        st.ghost[key] = (has, dk)
+        st.ghost[key] = (has, dk, ks, posa)
         return n, ks, pos
 
     def enum_idict(self, eng, st, a):
@@ -1069,6 +1100,12 @@ class Models:
                 for s2, h in self.hash_check(eng, st, key):
                     if not h:
                         out.append(eng.exc(s2, "TypeError", note="unhashable"))
+                    elif z3.is_true(z3.simplify(is_ref(dflt))):
+                        # an object default (e.g. `d.get(k, set())`): keep the two outcomes apart so that the
+                        # class of the result stays known
+                        kk = kn(key)
+                        for s3, b in eng.split(s2, z3.Select(s2.get("dhas", a), kk), note="dict.get hit"):
+                            out.append(Res("ok", s3, z3.Select(s3.get("dval", a), kk) if b else dflt))
                     else:
                         kk = kn(key)
                         out.append(Res("ok", s2, z3.If(z3.Select(s2.get("dhas", a), kk),
